@@ -118,6 +118,47 @@ theorem prefixCount_eq {m : Map} (hs : Sorted m) (pfx : Bytes) (hq : prefixUpper
 example : countPlain [([0x61], [1]), ([0x61, 0x00], []), ([0xff], [2]), ([0xff, 0xff], [3])] [0xff] = some 2 := by
   decide
 
+/-! ### edge cases of `List` -/
+
+/-- the answer of the `ListSeek` request in terms of live entries: the first live entry of `D`. -/
+theorem seekAnswer_eq (D : List Entry) :
+    seekAnswer D = (match (live D).head? with
+                    | some e => [e.1, e.2]
+                    | none => []) := by
+  induction D with
+  | nil => rfl
+  | cons a D ih =>
+    by_cases hd : isDeleted a.2 = true
+    · simp only [seekAnswer, List.dropWhile_cons, hd, if_true, live, List.filter_cons, Bool.not_true,
+        Bool.false_eq_true, if_false]
+      exact ih
+    · have hd' : isDeleted a.2 = false := by simpa using hd
+      simp [seekAnswer, List.dropWhile_cons, hd', live, List.filter_cons]
+
+/-- **`ListSeek`** (`count = 1`, `direction = 2`, non-empty key): the answer is `[key', value']` of
+the greatest live entry under the prefix with `key' ≤ key` (the first live entry walking down from
+`key`), or nothing. -/
+theorem list_seek {m : Map} (hs : Sorted m) (pfx key : Bytes) (hk : key ≠ [])
+    (hq : prefixUpper pfx ≠ some emptyValue) :
+    listPlain m pfx key 1 ListSeek
+      = some (match (live ((withPrefix m pfx).reverse.dropWhile (fun e => blt key e.1))).head? with
+              | some e => [e.1, e.2]
+              | none => []) := by
+  rw [listPlain_spec hs pfx key 1 ListSeek hq, ← seekAnswer_eq]
+  have hne : key.isEmpty = false := by
+    cases key with
+    | nil => exact absurd rfl hk
+    | cons _ _ => rfl
+  simp [listSpec, hne, ListSeek, ordered]
+  rfl
+
+/-- `count = 0` means "no limit": one request from the start returns every live entry. -/
+theorem list_count_zero {m : Map} (hs : Sorted m) (pfx : Bytes) (dir : Nat)
+    (hq : prefixUpper pfx ≠ some emptyValue) :
+    listEntriesPlain m pfx [] 0 dir = some (live (ordered (!isASC dir) (withPrefix m pfx))) := by
+  rw [list_page hs pfx [] 0 dir hq]
+  simp [takeC, remaining]
+
 /-! ### the merged view over layered databases (`merge_iter.go`) -/
 
 /-- The merged view `mergeMaps layers`, specified by point reads: it is an ordered map and a key
@@ -131,16 +172,17 @@ theorem mergeMaps_spec {layers : List Map} (hs : ∀ m ∈ layers, Sorted m) :
 single-database iterator over `mergeMaps layers` are cursors over one and the same entry list (the
 in-range entries of the union, in iteration order): `Rewind` positions both at its start, `Seek(k)`
 at its first entry not before `k`, `Valid/Key/Value` show the head of what remains and `Next` drops
-it (`RangeCursor`, `Proofs/C07Cursor.lean`).  Needs at least two layers (`LocalDB` always has;
-with one layer `NewMergedIterator` defaults `reverse` to true — covered by the differential run). -/
-theorem merged_eq_union {layers : List Map} (hs : ∀ m ∈ layers, Sorted m) (h2 : 2 ≤ layers.length)
+it (`RangeCursor`, `Proofs/C07Cursor.lean`).  For any number of layers — including the single-layer
+case, where `NewMergedIterator` defaults its `reverse` flag to `true` whatever the direction (the
+flag is then never consulted: `selMin_irrel`, `munion_irrel`). -/
+theorem merged_eq_union {layers : List Map} (hs : ∀ m ∈ layers, Sorted m)
     (start : Bytes) (end_ : Option Bytes) (rev : Bool) :
     let all := ordered rev (range (mergeMaps layers) start (effEnd start end_))
     RangeCursor mergedOps (MInv rev) MIter.rest (mergedIter layers start end_ rev) all rev
     ∧ RangeCursor iterOps Iter.WF Iter.rest (Iter.mk' (mergeMaps layers) start end_ rev) all rev := by
   intro all
   constructor
-  · have := mergedRangeCursor hs h2 start end_ rev
+  · have := mergedRangeCursor hs start end_ rev
     rwa [mergedAll_eq hs] at this
   · have := iterRangeCursor (Iter.wf_mk' (sorted_mergeMaps hs) start end_ rev)
     have hall : (Iter.mk' (mergeMaps layers) start end_ rev).all = all := by
@@ -148,18 +190,18 @@ theorem merged_eq_union {layers : List Map} (hs : ∀ m ∈ layers, Sorted m) (h
     rwa [hall] at this
 
 /-- consequently every page and every count over the layers equals the one over the union map. -/
-theorem list_merged_eq_plain {layers : List Map} (hs : ∀ m ∈ layers, Sorted m) (h2 : 2 ≤ layers.length)
+theorem list_merged_eq_plain {layers : List Map} (hs : ∀ m ∈ layers, Sorted m)
     (pfx key : Bytes) (count dir : Nat) (hq : prefixUpper pfx ≠ some emptyValue) :
     listEntriesMerged layers pfx key count dir = listEntriesPlain (mergeMaps layers) pfx key count dir
     ∧ countMerged layers pfx = countPlain (mergeMaps layers) pfx := by
-  rw [listEntriesMerged_spec hs h2 pfx key count dir hq,
+  rw [listEntriesMerged_spec hs pfx key count dir hq,
     listEntriesPlain_spec (sorted_mergeMaps hs) pfx key count dir hq,
-    countMerged_spec hs h2 pfx hq, countPlain_spec (sorted_mergeMaps hs) pfx hq]
+    countMerged_spec hs pfx hq, countPlain_spec (sorted_mergeMaps hs) pfx hq]
   exact ⟨rfl, rfl⟩
 
 /-- pages over the merged view concatenate to exactly its live entries under the prefix, in key
 order, each once. -/
-theorem pages_concat_merged {layers : List Map} (hs : ∀ m ∈ layers, Sorted m) (h2 : 2 ≤ layers.length)
+theorem pages_concat_merged {layers : List Map} (hs : ∀ m ∈ layers, Sorted m)
     (hk : ∀ m ∈ layers, ∀ e ∈ m, e.1 ≠ []) (pfx : Bytes) (count dir : Nat)
     (hc : 1 ≤ count) (hq : prefixUpper pfx ≠ some emptyValue) :
     pagedAll (fun key => listEntriesMerged layers pfx key count dir) (layersSize layers + 1) []
@@ -173,18 +215,18 @@ theorem pages_concat_merged {layers : List Map} (hs : ∀ m ∈ layers, Sorted m
     intro e he
     obtain ⟨m, hm, hem⟩ := mem_munion he
     exact hk m hm e hem
-  exact pagedAll_spec (P := []) (fun key => listEntriesMerged_spec hs h2 pfx key count dir hq)
+  exact pagedAll_spec (P := []) (fun key => listEntriesMerged_spec hs pfx key count dir hq)
     (dsorted_ordered (sorted_withPrefix (sorted_mergeMaps hs) pfx) _)
     (fun e he => hkm e (List.mem_filter.mp (mem_ordered.mp he)).1)
     hc rfl (by simp [remaining]) hlen
 
 /-- no foreign / tombstoned / hidden entry in any page of the merged view: every returned entry
 reads back through the layers (first layer holding the key) with that live value. -/
-theorem no_foreign_merged {layers : List Map} (hs : ∀ m ∈ layers, Sorted m) (h2 : 2 ≤ layers.length)
+theorem no_foreign_merged {layers : List Map} (hs : ∀ m ∈ layers, Sorted m)
     (pfx key : Bytes) (count dir : Nat) (hq : prefixUpper pfx ≠ some emptyValue) {p : List Entry}
     (hp : listEntriesMerged layers pfx key count dir = some p) :
     ∀ e ∈ p, layers.findSome? (fun m => get m e.1) = some e.2 ∧ pfx <+: e.1 ∧ e.2 ≠ [] := by
-  rw [(list_merged_eq_plain hs h2 pfx key count dir hq).1] at hp
+  rw [(list_merged_eq_plain hs pfx key count dir hq).1] at hp
   intro e he
   obtain ⟨h1, h2', h3⟩ := no_foreign (sorted_mergeMaps hs) pfx key count dir hq hp e he
   refine ⟨?_, h2', h3⟩
@@ -194,10 +236,10 @@ theorem no_foreign_merged {layers : List Map} (hs : ∀ m ∈ layers, Sorted m) 
   exact get_of_mem (sorted_mergeMaps hs) h1
 
 /-- `PrefixCount` over the merged view = number of its live entries under the prefix. -/
-theorem prefixCount_eq_merged {layers : List Map} (hs : ∀ m ∈ layers, Sorted m) (h2 : 2 ≤ layers.length)
+theorem prefixCount_eq_merged {layers : List Map} (hs : ∀ m ∈ layers, Sorted m)
     (pfx : Bytes) (hq : prefixUpper pfx ≠ some emptyValue) :
     countMerged layers pfx = some (live (withPrefix (mergeMaps layers) pfx)).length :=
-  countMerged_spec hs h2 pfx hq
+  countMerged_spec hs pfx hq
 
 /-- non-vacuity: three layers; the top layer tombstones `a1`, the middle one overrides `a`;
 page size 1 ascending; count. -/
@@ -209,5 +251,11 @@ example :
     ∧ countMerged
       [[([0x61, 0x31], [])], [([0x61], [9])], [([0x61], [1]), ([0x61, 0x31], [2]), ([0x61, 0x32], [3]), ([0x62], [4])]]
       [0x61] = some 2 := by decide
+
+/-- the single-layer code path (`NewMergedIterator` with one iterator: `reverse := true` by default),
+listed forward with page size 1. -/
+example :
+    pagedAll (fun key => listEntriesMerged [[([0x61], [1]), ([0x61, 0x31], []), ([0x62], [2])]] [] key 1 1) 4 []
+      = some [([0x61], [1]), ([0x62], [2])] := by decide
 
 end C07
